@@ -54,8 +54,11 @@ func (f *Fosite) NewPushedAuthorizeRequest(ctx context.Context, r *http.Request)
 
 	// Reject the request if the "request_uri" authorization request
 	// parameter is provided.
-	if r.Form.Get("request_uri") != "" {
-		return request, errorsx.WithStack(ErrInvalidRequest.WithHint("The request must not contain 'request_uri'."))
+	for _, requestURI := range r.Form["request_uri"] {
+		// every occurrence counts, not just the first one
+		if requestURI != "" {
+			return request, errorsx.WithStack(ErrInvalidRequest.WithHint("The request must not contain 'request_uri'."))
+		}
 	}
 
 	// For private_key_jwt or basic auth client authentication, "client_id" may not inside the form
